@@ -30,6 +30,7 @@ func init() {
 			ruleC05R13(r)
 			ruleClosedChannelsRecognised(r, "R14", "/wire", "/iscp", "/transport/reconnect", "/transport/multi", "/transport/quic", "/transport/webtransport", "/transport/websocket", "/transport", "/internal/ch", "/encoding")
 			ruleAttemptUsesCurrentConn(r, "R15")
+			r.borrow("C03", func() { ruleC03R11(r) }) // a resume repeated after a conflict must not subscribe twice
 		},
 	})
 }
